@@ -1,7 +1,8 @@
-(* C07 — open handles stay bound to their stream and never touch other objects.  Statements are printed by Check below and compared with C07.expected; proofs in proofs/DirProofs.v (removal by relinking keeps every surviving entry's id and payload) and proofs/ChainProofs.v (writing one chain never changes another).  Handles hold entry ids; that handle operations go through the entry id only is the handle model of C06. *)
+(* C07 — open handles stay bound to their stream and never touch other objects.  Statements are printed by Check below and compared with C07.expected; proofs in proofs/DirProofs.v (removal by relinking keeps every surviving entry's id and payload) and proofs/ChainProofs.v (writing one chain never changes another).  Handles hold entry ids.  Also proved (proofs/HandleFrame.v): every store call made by a handle operation is on the handle's own id (handle_calls_own_id, over an arbitrary store); UNCONDITIONALLY and in every outcome a handle operation leaves all other handle slots and every directory entry except its own and the root's untouched, and changes of those two only start sector and length (the root entry records the mini-stream container) - name, type, links, colour, CLSID, state bits and timestamps of every entry are unchanged; in the store cases that allocate and free nothing (overwrite, growth and shrinking inside the sectors the stream has, small and large) every OTHER stream keeps its content, the root entry is unchanged, and the global disjointness invariant AllStreamsWf is preserved, so the statement composes along a run; for FAT-changing resizes of large streams the other large streams keep their content; the table represents the abstract tree with only that leaf updated.  NOT proved: other streams through writes that allocate, mini-sector allocation / freeing, migrations across the 4096 cutoff (checked by multi-handle lockstep histories). *)
 From Cfb.model Require Import Base Names DirEnt State Alloc Dir Mini Store Handle Open Cfb.
 From Cfb.gen Require Import Consts.
-From Cfb.proofs Require Import DirProofs ChainProofs.
+From Cfb.spec Require Import Tree.
+From Cfb.proofs Require Import DirProofs ChainProofs QueryRefine HandleFrame.
 Set Printing Width 110.
 
 (* for EVERY table: removing an entry frees exactly its own slot; every other slot keeps name, type, start sector, length, CLSID, state bits and times (only sibling links / colour may change) *)
@@ -33,3 +34,57 @@ Theorem C07_writes_do_not_touch_other_chains : ltac:(let t := type of chain_writ
 Proof. exact chain_write_frame_other. Qed.
 Check C07_writes_do_not_touch_other_chains.
 Print Assumptions C07_writes_do_not_touch_other_chains.
+
+(* over an arbitrary store that logs the id of every call: each handle operation extends the log with h_id h only *)
+Theorem C07_handle_ops_call_the_store_on_their_own_id_only : ltac:(let t := type of handle_calls_own_id in exact t).
+Proof. exact handle_calls_own_id. Qed.
+Check C07_handle_ops_call_the_store_on_their_own_id_only.
+Print Assumptions C07_handle_ops_call_the_store_on_their_own_id_only.
+
+(* UNCONDITIONAL, every outcome: slots other than the handle's own and the root are identical, those two change only in start sector and length; all other handle slots are untouched *)
+Theorem C07_handle_ops_leave_the_table_alone : ltac:(let t := type of handle_op_table_frame in exact t).
+Proof. exact handle_op_table_frame. Qed.
+Check C07_handle_ops_leave_the_table_alone.
+Print Assumptions C07_handle_ops_leave_the_table_alone.
+
+(* entry by entry: name, type, colour, links, CLSID, state bits, timestamps unchanged everywhere *)
+Theorem C07_handle_ops_keep_every_entrys_metadata : ltac:(let t := type of handle_op_entries in exact t).
+Proof. exact handle_op_entries. Qed.
+Check C07_handle_ops_keep_every_entrys_metadata.
+Print Assumptions C07_handle_ops_keep_every_entrys_metadata.
+
+(* write-back in the non-allocating cases: every other stream (small or large) keeps its content, the disjointness invariant is preserved *)
+Theorem C07_store_writes_frame_other_streams : ltac:(let t := type of write_data_frames_others in exact t).
+Proof. exact write_data_frames_others. Qed.
+Check C07_store_writes_frame_other_streams.
+Print Assumptions C07_store_writes_frame_other_streams.
+
+(* same for resize *)
+Theorem C07_store_resizes_frame_other_streams : ltac:(let t := type of resize_frames_others in exact t).
+Proof. exact resize_frames_others. Qed.
+Check C07_store_resizes_frame_other_streams.
+Print Assumptions C07_store_resizes_frame_other_streams.
+
+(* THE PROPERTY at the level of step, in the covered store cases; includes AllStreamsWf afterwards, so it composes along a run *)
+Theorem C07_handle_ops_frame_other_streams : ltac:(let t := type of handle_op_frames_others in exact t).
+Proof. exact handle_op_frames_others. Qed.
+Check C07_handle_ops_frame_other_streams.
+Print Assumptions C07_handle_ops_frame_other_streams.
+
+(* set_len that releases, reuses or appends sectors: other large streams keep their content *)
+Theorem C07_fat_changing_resizes_frame_other_large_streams : ltac:(let t := type of setlen_fat_frames_big_others in exact t).
+Proof. exact setlen_fat_frames_big_others. Qed.
+Check C07_fat_changing_resizes_frame_other_large_streams.
+Print Assumptions C07_fat_changing_resizes_frame_other_large_streams.
+
+(* the table represents the abstract tree with only the handle's leaf updated *)
+Theorem C07_tree_after_a_handle_op : ltac:(let t := type of handle_op_tree in exact t).
+Proof. exact handle_op_tree. Qed.
+Check C07_tree_after_a_handle_op.
+Print Assumptions C07_tree_after_a_handle_op.
+
+(* non-vacuity: write + flush through a small stream's handle leaves a 5000-byte stream, its entry, the root entry and the other handle as they were *)
+Theorem C07_frame_example_small_vs_large : ltac:(let t := type of Example.flush_a_keeps_b in exact t).
+Proof. exact Example.flush_a_keeps_b. Qed.
+Check C07_frame_example_small_vs_large.
+Print Assumptions C07_frame_example_small_vs_large.
